@@ -38,7 +38,7 @@ func runC06(p *core.Prog, r *core.Report) {
 	c06R9(p, r, "C06.R9")
 	// the collection that Close runs does not interleave with a push of the same client: the sweep holds the layout mutex (shared with C08.R2)
 	c08R2(p, r, "C06.R10")
-	c06R11(p, r)
+	c06R11(p, r, "C06.R11")
 }
 
 // c06R9: an entry without a name is not the entry of the empty tag. Where an entry's ref.name
@@ -1109,8 +1109,7 @@ func c06R8(p *core.Prog, r *core.Report) {
 // of a page into the listing does not compare tag names by order: registries page by creation time,
 // by natural version order, case-insensitively; a merge that skips what sorts before the last tag it
 // has (to drop repeats) silently loses real tags at page boundaries.
-func c06R11(p *core.Prog, r *core.Report) {
-	const rule = "C06.R11"
+func c06R11(p *core.Prog, r *core.Report, rule string) {
 	r.Rule(rule, "pages are merged without an order assumption: the function that appends a page to a tag listing (types/tag (*List).Append and what it calls in the package) makes no ordered comparison (<, <=, >, >=) of strings (removing repeats by equality is fine; by order it drops tags of registries that do not page byte-wise)", 1)
 	tl := p.Named("types/tag", "List")
 	var fn *ssa.Function
